@@ -10,6 +10,8 @@ Verdict(e) ==
                            ELSE IF ~IsPerm(e.perm, Len(e.K)) THEN "not_a_permutation"
                            ELSE IF ~Ordered(e.K, e.rev, e.naLast, e.perm) THEN "not_ordered"
                            ELSE "not_stable"
+      [] e.op = "tsort_rows" ->     \* rows recorded from the repository's own tests (cells abstracted by equality)
+           IF e.outrows = [i \in 1..Len(p) |-> e.inrows[p[i]]] THEN "ok" ELSE "sort_rows"
       [] e.op = "vsort" -> IF e.out = [i \in 1..Len(p) |-> e.K[p[i]][1]] THEN "ok" ELSE "vector_sort"
       [] OTHER -> "unknown_op"
 Bad == {<<Trace[i].id, Verdict(Trace[i])>> : i \in {j \in 1..Len(Trace) : Verdict(Trace[j]) # "ok"}}
